@@ -444,6 +444,15 @@ class Exec:
             return BoolV({ast.LtE: Or(zero, diff), ast.Lt: And(Not(zero), diff), ast.Gt: And(Not(zero), Not(diff)),
                           ast.GtE: Or(zero, Not(diff))}[type(op)])
         a, b = self.ev(l, p), self.ev(r, p)
+        if isinstance(op, ast.Eq) and isinstance(a, IntV) and isinstance(b, IntV) and (hasattr(a, 'card_of') or hasattr(b, 'card_of')):
+            # `len(s) == k`: ASSUMED fact about finite sets (pigeonhole), stated only for the case that the test succeeds:
+            # a set of k naturals that are all below k is the whole initial segment 0..k-1
+            from z3 import ForAll
+            v = getattr(a, 'card_of', None) or getattr(b, 'card_of')
+            l1, l2 = Int(f'l!card{next(M._cnt)}'), Int(f'l!card{next(M._cnt)}')
+            self.assume(p, Implies(And(a.z == b.z, ForAll([l1], Implies(v.has[l1], And(0 <= l1, l1 < v._len)), patterns=[v.has[l1]])),
+                                   ForAll([l2], Implies(And(0 <= l2, l2 < v._len), v.has[l2]), patterns=[v.has[l2]])))
+            self.assumed_builtins.add('cardinality (pigeonhole): a set of naturals all below its len() contains every natural below its len()')
         if isinstance(a, ObjV) and isinstance(op, (ast.Eq, ast.NotEq)) and not isinstance(b, IntV):
             m = '__eq__' if isinstance(op, ast.Eq) else '__ne__'
             if f'{a.cls}.{m}' in self.reg:
@@ -928,14 +937,9 @@ class Exec:
             self.assume(p, (v._len == 0) == Not(nonempty(v)))
             return IntV(v._len)
         if isinstance(v, SetV) and v.kkind == 'int':
-            from z3 import ForAll
-            l1, l2 = Int(f'l!card{next(M._cnt)}'), Int(f'l!card{next(M._cnt)}')
-            # ASSUMED fact about finite sets (pigeonhole): a set all of whose elements are naturals below its cardinality
-            # is the whole initial segment
-            self.assume(p, Implies(ForAll([l1], Implies(v.has[l1], And(0 <= l1, l1 < v._len)), patterns=[v.has[l1]]),
-                                   ForAll([l2], Implies(And(0 <= l2, l2 < v._len), v.has[l2]), patterns=[v.has[l2]])))
-            self.assumed_builtins.add('cardinality (pigeonhole): a set of naturals all below its len() contains every natural below its len()')
-            return IntV(v._len)
+            r = IntV(v._len)
+            r.card_of = v
+            return r
         raise Unsupported(f'len({ast.unparse(a)})@{e.lineno}')
 
     def builtin_isinstance(self, e, p):
@@ -1328,6 +1332,9 @@ class Exec:
                 out[n + '_none'] = is_none(v)
             elif isinstance(v, StrV):
                 out[n] = v.v
+            elif isinstance(v, FieldV):
+                out[n] = p.mgrs[v.mkey] if p is not None else v
+                out[n + '_key'] = v.mkey
             elif isinstance(v, IntV) and kind in ('opthandle',):
                 out[n] = v.z
                 out[n + '_none'] = is_none(v)
